@@ -65,6 +65,10 @@ type Check struct {
 
 var registry = map[string]*Check{}
 
+// Subcommands are extra entry points of the binary registered by checks
+// (e.g. computing a baseline in a fresh process).
+var Subcommands = map[string]func(args []string) int{}
+
 func Register(c *Check) { registry[c.ID] = c }
 
 func Lookup(id string) *Check { return registry[id] }
